@@ -224,7 +224,11 @@ def image_classify(prop):
                 info["prop_fail"] = "foreign-magic-accepted"
                 info["why"] = "a stream that does not start with the model magic was not rejected"
         else:
-            if mode == "full":
+            if mode == "big":
+                if impl != "ok" or flags.get("BEH") != "1":
+                    info["prop_fail"] = "big-image-roundtrip"
+                    info["why"] = "a large dictionary image (dimension %s) written by Dictionary::write is not read back identically: %s" % (line.split(" DIM ")[1].split()[0], impl)
+            elif mode == "full":
                 f = impl.split()
                 if f[0] != "ok" or f[-1] != "same" or f[1] != flags.get("LEN") or f[2] != flags.get("LEN"):
                     info["prop_fail"] = "image-roundtrip"
@@ -245,8 +249,12 @@ def image_streams(prop):
             return [(["image", "allcuts", str(seed), "3"], c), (["image", "cuts", str(seed + 1), "60"], c),
                     (["image", "magic", str(seed), "2000"], c)]
         if tier == "quick":
-            return [(["image", "full", str(seed), "120"], c)]
-        return [(["image", "full", str(seed), "3000"], c)]
+            return [(["image", "full", str(seed), "120"], c),
+                    (["image", "big", str(seed), "1"], c),
+                    (["image", "fullx", str(seed + 7), "60"], c, {"avx2": True})]
+        return [(["image", "full", str(seed), "3000"], c),
+                (["image", "big", str(seed), "4"], c),
+                (["image", "fullx", str(seed + 7), "1500"], c, {"avx2": True})]
     return streams
 
 
@@ -340,10 +348,13 @@ LATTICE_TB = [
 
 PROPS = {
     "C03": {
-        "modules": ["Vibrato.Proofs.Tokenizer", "Vibrato.Proofs.TokenizerEnv"],
-        "theorems": ["Vibrato.genUnk_eq", "Vibrato.mem_unkLengths", "Vibrato.unkLengths_bounds", "Vibrato.lexMatches_spec",
-                     "Vibrato.lexMatches_complete", "Vibrato.scanEntries_mem", "Vibrato.groupables_bounds",
-                     "Vibrato.candsAt_spec"],
+        "modules": ["Vibrato.Props.C03"],
+        "theorems": ["Vibrato.lex_candidates_spec", "Vibrato.genUnk_spec", "Vibrato.unkOf_spec", "Vibrato.unkOfRows_order",
+                     "Vibrato.groupable_spec", "Vibrato.candidates_spec", "Vibrato.charInfo_last_range",
+                     "Vibrato.fileRanges_inclusive", "Vibrato.packing_roundtrip", "Vibrato.parse_packable",
+                     "Vibrato.charInfo_astral_partial", "Vibrato.charInfo_astral_default", "Vibrato.astral_not_default",
+                     "Vibrato.candidates_all_inserted", "Vibrato.candidate_is_stored",
+                     "Vibrato.genUnk_eq", "Vibrato.mem_unkLengths", "Vibrato.lexMatches_spec", "Vibrato.lexMatches_complete"],
         "streams": tok_streams("c01", 600, 20000, tok2_classifier("C03", has_lattice_choice)),
         "rule": "random char.def layouts (<= 6 categories, overlapping ranges, multi-category characters, every invoke/group/"
                 "length combination), 1-3 unk.def entries per category, max_grouping_len in {0,1,2,3,24}, lexicons with homographs "
@@ -353,8 +364,11 @@ PROPS = {
         "assumptions": ["characters above U+FFFF read table entry 0 (finding F13), mirrored by the model"],
     },
     "C06": {
-        "modules": ["Vibrato.Props.C06map"],
-        "theorems": ["Vibrato.Mapper.parse_ok_iff", "Vibrato.Mapper.parse_err_iff", "Vibrato.Mapper.parse_bijection",
+        "modules": ["Vibrato.Props.C06map", "Vibrato.Props.C06"],
+        "theorems": ["Vibrato.lattice_relabel", "Vibrato.tokens_relabel", "Vibrato.relabel_node_spec", "Vibrato.mapIds_tokenize",
+                     "Vibrato.mapIds_cost", "Vibrato.mapIds_feature", "Vibrato.history_tokenize", "Vibrato.history_invariant",
+                     "Vibrato.f3_pinned_breaks_history",
+                     "Vibrato.Mapper.parse_ok_iff", "Vibrato.Mapper.parse_err_iff", "Vibrato.Mapper.parse_bijection",
                      "Vibrato.Mapper.matrix_cost_map", "Vibrato.Mapper.raw_cost_map", "Vibrato.Mapper.dual_cost_map",
                      "Vibrato.Mapper.conn_cost_map_fn", "Vibrato.Mapper.mapIds_total", "Vibrato.Mapper.map_compose",
                      "Vibrato.Mapper.unfixed_wrong_length_panics", "Vibrato.Mapper.unfixed_second_map_mistranslates"],
@@ -366,8 +380,12 @@ PROPS = {
         "assumptions": [],
     },
     "C08": {
-        "modules": ["Vibrato.Props.C06map"],
-        "theorems": ["Vibrato.Mapper.loadUserChecked_total", "Vibrato.Mapper.loadUser_out_of_range_panics_after_map",
+        "modules": ["Vibrato.Props.C06map", "Vibrato.Props.C08"],
+        "theorems": ["Vibrato.user_equiv_extended_system", "Vibrato.system_words_remain", "Vibrato.user_words_offered",
+                     "Vibrato.perm_min_cost", "Vibrato.perm_total_cost_eq", "Vibrato.user_eos_cost_eq",
+                     "Vibrato.user_optimal_cost_eq", "Vibrato.reset_last_wins", "Vibrato.reset_none_restores",
+                     "Vibrato.reset_some_then_none", "Vibrato.verify_in_range", "Vibrato.cands_in_range", "Vibrato.reset_rejects",
+                     "Vibrato.Mapper.loadUserChecked_total", "Vibrato.Mapper.loadUser_out_of_range_panics_after_map",
                      "Vibrato.Mapper.map_compose"],
         "streams": tok_streams("c08", 300, 8000, tok2_classifier("C08", has_dops)),
         "rule": "user CSVs with homographs of system words, longer/shorter overlapping surfaces, out-of-range ids; load/replace/clear "
